@@ -199,6 +199,12 @@ pub fn show_ops(ops: &[Op]) -> String {
 /// fill length distribution of DESIGN §3; `left_in_block` = bytes left in the
 /// current block (0 for unbuffered generators), `block_bytes` the block size
 pub fn gen_fill_len(p: &mut Prng, left_in_block: usize, block_bytes: usize) -> usize {
+    // one request in ten is of arbitrary moderate size (bulk paths with their own
+    // thresholds and remainders: 128, 256, 1024, 2048 … and every residue)
+    if p.chance(1, 10) {
+        let cap = match p.below(3) { 0 => 300, 1 => 1300, _ => 4400 };
+        return p.below(cap) as usize;
+    }
     match p.below(10) {
         0..=3 => p.below(18) as usize,
         4 | 5 => {
@@ -269,6 +275,9 @@ impl ScriptedTimer {
     /// make the k-th timer call from now panic (one-shot)
     pub fn inject_fault_after(&self, k: usize) {
         self.0.fault_at.store(self.calls() + k, Ordering::SeqCst);
+    }
+    pub fn set_pos(&self, pos: usize) {
+        self.0.pos.store(pos, Ordering::SeqCst);
     }
     pub fn fault_pending(&self) -> bool {
         self.0.fault_at.load(Ordering::SeqCst) != usize::MAX
